@@ -18,7 +18,7 @@ func init() {
 			"R03-flagtime — codeBlock.RefUpvalue is a monotone flag that is final only at block completion, so it may be read only by the block-completion functions; R03-closeA — the A operand of every emitted OP_CLOSE and of every SetA patch derives from a local-variable boundary, never from a literal; R03-capture — OP_CLOSURE's capture loop and the compiler's pseudo-instruction list agree (MOVE = find-or-create open up-value at lbase+B, GETUPVAL = share the parent's), and the only writer of RefUpvalue sets it on the block that owns the captured local. " +
 			"NOT decided: that the right block is marked, sharing between sibling closures, per-iteration freshness, setfenv resolution.",
 		Trusted: []string{"register index of a local = its ordinal among active locals (compiler invariant, not checked)"},
-		Rules:   []func(*Ctx){ruleClose, ruleScopeExitVM, ruleScopeExitCompiler, ruleFlagTime, ruleCloseA, ruleCapture},
+		Rules:   []func(*Ctx){ruleClose, ruleScopeExitVM, ruleScopeExitCompiler, ruleFlagTime, ruleCloseA, rulePatchPairing, ruleCapture},
 	})
 }
 
@@ -92,6 +92,14 @@ func ruleClose(c *Ctx) {
 						continue
 					}
 					if s.Bound == nil {
+						continue
+					}
+					// nothing that can run Lua code (and open new up-values) between the close and the reclaim
+					hb, hi := after(s.Head)
+					if g.walk(hb, hi, func(x ssa.Instruction) bool { return x == in }, func(x ssa.Instruction) bool {
+						sc := staticCallee(x)
+						return sc != nil && (fname(sc) == "(*LState).Call" || fname(sc) == "(*LState).PCall" || fname(sc) == "(*LState).callR")
+					}) {
 						continue
 					}
 					if kind == "L.SetTop" {
@@ -461,6 +469,50 @@ func ruleCloseA(c *Ctx) {
 			_, isConst := constInt(v)
 			c.check(!isConst, R, key, p.ipos(call), "patch value derives from "+shortKey(vkey(v)), "OP_CLOSE operand patched with a literal")
 		}
+	}
+}
+
+// rulePatchPairing: whenever a pending goto is carried out of a block and its local-variable level is
+// lowered, the operand of its OP_CLOSE is lowered to the same level at the same moment.
+func rulePatchPairing(c *Ctx) {
+	const R = "R03-closeA"
+	p := c.P
+	fn := c.need(R, "lua", "(*funcContext).ResolveCurrentBlockGotosWithParentBlock")
+	if fn == nil {
+		return
+	}
+	g := p.G(fn)
+	setN := p.Fn("lua", "(*gotoLabelDesc).SetNumActiveLocalVars")
+	setA := p.Fn("lua", "(*codeStore).SetA")
+	n := 0
+	for _, cl := range callsTo(fn, setN) {
+		n++
+		lvl := vkey(cl.Call.Args[1])
+		okc := false
+		for _, pa := range callsTo(fn, setA) {
+			if vkey(pa.Call.Args[2]) == lvl && (pa.Block() == cl.Block() || g.Dominates(pa, cl)) {
+				okc = true
+			}
+		}
+		c.check(okc, R, fmt.Sprintf("ResolveCurrentBlockGotos:level-lowered-with-patch#%d", n), p.ipos(cl), "the goto's OP_CLOSE operand is patched to the level its local count is lowered to", "a pending goto leaves a block (its local level is lowered) without its OP_CLOSE operand being lowered too: a forward goto out of a nested block no longer closes the up-values of the locals it leaves")
+	}
+	if n == 0 {
+		c.und(R, "ResolveCurrentBlockGotos:level-lowering", p.pos(fn.Pos()), "no SetNumActiveLocalVars call found")
+	}
+	// FindLabel patches to the target's level exactly when the goto leaves locals behind
+	if fl := c.need(R, "lua", "(*funcContext).FindLabel"); fl != nil {
+		gf := p.G(fl)
+		okc := false
+		for _, pa := range callsTo(fl, setA) {
+			if strings.Contains(vkey(pa.Call.Args[2]), "NumActiveLocalVars") {
+				for _, cd := range gf.CondsAtInstr(pa) {
+					if b, ok := cd.V.(*ssa.BinOp); ok && strings.Contains(vkey(b.X), "NumActiveLocalVars") && strings.Contains(vkey(b.Y), "NumActiveLocalVars") {
+						okc = true
+					}
+				}
+			}
+		}
+		c.check(okc, R, "FindLabel:patch-only-when-leaving-locals", p.pos(fl.Pos()), "a resolved goto's OP_CLOSE is patched to the target's level under the comparison of the two levels", "FindLabel patches the OP_CLOSE operand without comparing the goto's and the label's local levels (a goto to a deeper-level label would close too little / raise the operand)")
 	}
 }
 
